@@ -20,7 +20,7 @@ PCTS = [[0, 1], [1, 10], [3, 10], [1, 3], [1, 2], [7, 10], [1, 1]]
 PROPS = 'PFilter PCap PHalf PRecycle PKept PKnown'
 
 
-def mc_cfg(nodes, pct, rules, actives, maxt, maxreq, maxin, mut='none', gen=False, sym=True, steps='{1, 2}'):
+def mc_cfg(nodes, pct, rules, actives, maxt, maxreq, maxin, mut='none', gen=False, sym=True, steps='{1, 2}', pre=False):
     if isinstance(nodes, int) and sym and not gen:
         nodeline = '  Nodes = {%s}\n' % ', '.join('n%d' % i for i in range(1, nodes + 1))
         symline = 'SYMMETRY NodeSym\n'
@@ -38,9 +38,10 @@ def mc_cfg(nodes, pct, rules, actives, maxt, maxreq, maxin, mut='none', gen=Fals
   MaxReq = %d
   MaxInflight = %d
   Mut = "%s"
+  Pre = %s
 %sVIEW view
 %sCHECK_DEADLOCK FALSE
-""" % (nodes, ', '.join(map(str, pct)), ', '.join(map(str, rules)), ', '.join(actives), steps, maxt, maxreq, maxin, mut, symline,
+""" % (nodes, ', '.join(map(str, pct)), ', '.join(map(str, rules)), ', '.join(actives), steps, maxt, maxreq, maxin, mut, 'TRUE' if pre else 'FALSE', symline,
        '' if gen else 'INVARIANT TypeOK\nPROPERTIES %s\n' % PROPS)
 
 
@@ -302,7 +303,7 @@ def classify(c, scn, exp):
 
 def handle_mismatches(c, drv, scns, mism, tag, **kw):
     by_tr = {s[0]['tr']: s for s in scns}
-    for tr, line, exp in mism[:10]:
+    for tr, line, exp in mism[:4]:      # a handful per group is enough for a verdict; each is confirmed twice
         s = by_tr[tr]
         rp = c.save_replay('%s-tr%d.ndjson' % (tag, tr), s)
         ok = 0
